@@ -187,7 +187,7 @@ func init() {
 		}
 		return nil
 	}
-	harnessAPI["verifMapOrder"] = func(ex *Exec, fr *frame, a []value) value { ex.MapRev = a[0].(bool); return nil }
+	harnessAPI["verifMapOrder"] = func(ex *Exec, fr *frame, a []value) value { ex.MapRev = ex.branch(a[0]); return nil }
 	harnessAPI["verifPreemptBound"] = func(ex *Exec, fr *frame, a []value) value {
 		ex.PreemptBound = int(a[0].(uint64))
 		return nil
